@@ -37,6 +37,10 @@ def handle (op : Json) : R Json := do
       out := out.push (obj [("c", "log"), ("en", jbool (enabled σ core l)), ("seq", jarr Json.str (seqOf "" evs)),
         ("obs", obsOf "" evs)])
       w := { w' with evs := [] }
+    | "sync" =>
+      let w' := syncEv μ lg.core w
+      out := out.push (obj [("c", "sync"), ("seq", jarr Json.str (seqOf "" w'.evs))])
+      w := { w' with evs := [] }
     | _ => throw s!"call kind {c}"
   return obj [("build", jarr Json.str buildEvs), ("rej", jarr jnat rej), ("calls", Json.arr out)]
 
